@@ -59,6 +59,13 @@ META = {
 
 NO_EVENT, NOTE_OFF = -2, -1
 
+_PATTERNS3_SHORT = [
+    [[0, 2], [2, 4], [4, 5]],
+    [[0, 4], [1, 2], [2, 3]],
+    [[0, 1], [0, 2], [6, 7]],
+    [[1, 3], [1, 2], [2, 7]],
+]
+
 # (start, end) step patterns for three notes: chained overlaps, nesting,
 # abutting, a long gap, simultaneous onsets
 _PATTERNS3 = [
@@ -291,7 +298,8 @@ def h_drums(c):
   N, S = c.params['N'], c.params['S']
   ts = tuple(c.params.get('ts', (4, 4)))
   spq = c.params.get('spq', 1)
-  ns, notes, tq = _qseq(c, N, S, relative=True, spq=spq, ts=ts, pitch=(36, 38))
+  ns, notes, tq = _qseq(c, N, S, relative=True, spq=spq, ts=ts, pitch=(36, 38),
+                        steps=c.params.get('steps'))
   search = c.params['search']
   gap_bars = c.params['gap']
   pad = c.params['pad']
@@ -416,7 +424,7 @@ def h_melody(c):
   ts = tuple(c.params.get('ts', (4, 4)))
   spq = c.params.get('spq', 1)
   ns, notes, tq = _qseq(c, N, S, relative=True, spq=spq, ts=ts, pitch=(60, 62),
-                        instruments=(0, 1))
+                        instruments=(0, 1), steps=c.params.get('steps'))
   search = c.params['search']
   gap_bars = c.params['gap']
   pad = c.params['pad']
@@ -560,6 +568,15 @@ def jobs(tier):
       filter_drums=True)
   add('h_melody', N=1, S=4, search=0, gap=1, pad=False, ignore_poly=False,
       filter_drums=True, ts=[3, 8], spq=1)
+  # three notes on concrete step patterns, pitches / velocities / drum flags /
+  # instruments symbolic
+  for pat in _PATTERNS3_SHORT:
+    add('h_melody', N=3, S=8, search=0, gap=1, pad=False, ignore_poly=True,
+        filter_drums=True, steps=pat, budget=600)
+    add('h_drums', N=3, S=8, search=0, gap=1, pad=True, ignore_is_drum=False,
+        steps=pat, budget=600)
+  add('h_melody', N=3, S=8, search=0, gap=1, pad=True, ignore_poly=False,
+      filter_drums=False, steps=_PATTERNS3_SHORT[0], budget=600)
   if deep:
     for kind in ('absolute', 'metric'):
       for bins in (0, 8):
